@@ -106,7 +106,8 @@ def w_ignore(arg):
                 res["violations"].append({
                     "kind": "ignored_line_not_carried_over", "rule": rule, "input": ann,
                     "detail": {"line": w, "what_happened": kind_of_loss, "attributed_rule": rule, "direct_edit_backend": direct, "scheduled_backend": sched_touched,
-                               "options": case.get("options"), "out": out[-1200:]},
+                               "options": case.get("options"), "out": out[-1200:],
+                               "line_present_up_to_tab_expansion_and_trailing_blanks": w.expandtabs(4).rstrip() in out_lines},
                     "replay": {"fn": "harness.checks.c20:w_ignore", "arg": {"cases": [case]}}})
         if not lost and out != ann and len(res["samples"]) < 1 and len(ann) < 400:
             res["samples"].append({"input": ann, "output": out, "annotated_lines_kept": len(want)})
@@ -213,6 +214,23 @@ def main() -> int:
     for k, c in enumerate(cases):
         if k % 4 == 3:
             c["comment"] = "  " + spellings[1 + (k // 4) % (len(spellings) - 2)].format("ignore")  # (no tab inside: tabs outside literals are expanded by design)
+    # blanks that the layout stages normalise, on the annotated line itself: after the comment, a tab before the comment, tabs as indentation
+    for k, (sid, text) in enumerate(sources[: 60 if thorough else 24]):
+        idx = annotatable_lines(text)
+        if not idx:
+            continue
+        rr = env.rng(PROP, "blanks", sid)
+        i = rr.choice(idx)
+        form = k % 3
+        if form == 0:
+            cases.append({"id": f"{sid}:{i}:trailing_blanks", "text": text, "lines": [i], "options": {}, "comment": "  # pyrefact: ignore  " + " " * rr.randint(0, 2)})
+        elif form == 1:
+            cases.append({"id": f"{sid}:{i}:tab_before_comment", "text": text, "lines": [i], "options": {}, "comment": "\t# pyrefact: ignore"})
+        else:
+            tabbed = "\n".join("\t" * ((len(l) - len(l.lstrip(" "))) // 4) + l.lstrip(" ") if l.startswith("    ") else l for l in text.split("\n"))
+            indented = [j for j in annotatable_lines(tabbed) if tabbed.split("\n")[j].startswith("\t")]
+            if indented:
+                cases.append({"id": f"{sid}:tab_indentation", "text": tabbed, "lines": [rr.choice(indented)], "options": {}})
     skips = []
     for k, (sid, text) in enumerate(sources[: 120 if thorough else 40]):
         rr = env.rng(PROP, "skip", sid)
